@@ -95,6 +95,9 @@ structure Scored (α : Type) where
   resType : String
   label : String
   use : Bool                 -- `use_in_calculations()`
+  chain : String             -- `group.atom.chain_id`
+  het : Bool                 -- `group.atom.type == 'hetatm'`
+  ctg : Option String        -- label of `coupled_titrating_group`
   model : α
   nv : α
   buried : α
@@ -106,7 +109,8 @@ def scoredOf (r : Pipe.Prepared α) (outs : List (Scoring.GOut α)) : List (Scor
     let o := go.2
     let a := r.atoms.getD g.atom Pipe.PAtom.dflt
     { resLabel := atomLabel a, type := g.type, resType := g.resType, label := g.label,
-      use := g.titratable || (g.resType == "CYS" && !g.excludeCys), model := g.model, nv := ((o.nv : Nat) : α), buried := o.buried,
+      use := g.titratable || (g.resType == "CYS" && !g.excludeCys), chain := a.chain, het := a.het,
+      ctg := o.ctg.bind fun c => (r.groups[c]?).map (·.label), model := g.model, nv := ((o.nv : Nat) : α), buried := o.buried,
       grec := ⟨g.label, g.model, o.evol, o.eloc, detsOf r o.sc, detsOf r o.bb, detsOf r o.cb, o.pka, a.bridged, []⟩ }
 
 /-- a group of the average conformation -/
@@ -114,6 +118,9 @@ structure AvrGroup (α : Type) where
   label : String
   type : String
   resType : String
+  chain : String
+  het : Bool
+  ctg : Option String
   model : α
   nv : α
   buried : α
@@ -148,7 +155,7 @@ def averageOf (confs : List (List (Scored α))) : List (AvrGroup α) :=
       if acc.any (fun e => e.1.resLabel == g.resLabel && e.1.type == g.type) then acc
       else
         let found := confs.filterMap fun c => findGroup c g
-        acc ++ [(g, { label := g.label, type := g.type, resType := g.resType, model := g.model,
+        acc ++ [(g, { label := g.label, type := g.type, resType := g.resType, chain := g.chain, het := g.het, ctg := g.ctg, model := g.model,
                       nv := Dets.avgScalar z (found.map (·.nv)), buried := Dets.avgScalar z (found.map (·.buried)),
                       acc := averageL z (found.map (·.grec)) })]) acc) []).map (·.2)
 
